@@ -377,7 +377,8 @@ def canonical_blocks(tree):
        with np.errstate(..): S               -> S                              (warning settings change no value)
        a, b = x, y                           -> a = x; b = y                   (plain names, no right-hand side reads a target)
        c = E; if c: S                        -> if E: S                        (c read nowhere else)
-       for m in S: (a, b) = m; R             -> for (a, b) in S: R             (m read nowhere else)"""
+       for m in S: (a, b) = m; R             -> for (a, b) in S: R             (m read nowhere else)
+       f = lambda a: e                       -> def f(a): return e             (inside functions)"""
     def scope_names(fn):
         return [x for x in ast.walk(fn) if isinstance(x, ast.Name)]
 
@@ -406,6 +407,18 @@ def canonical_blocks(tree):
                 st.test = ast.copy_location(t.operand if isinstance(t, ast.UnaryOp) and isinstance(t.op, ast.Not)
                                             else ast.UnaryOp(op=ast.Not(), operand=t), t)
                 st.body = st.body[1:]
+            # f = lambda a: e  ->  def f(a): return e
+            if isinstance(st, ast.Assign) and len(st.targets) == 1 and isinstance(st.targets[0], ast.Name) and isinstance(st.value, ast.Lambda) \
+                    and fn_names is not None:
+                fd = ast.FunctionDef(name=st.targets[0].id, args=st.value.args, body=[ast.copy_location(ast.Return(value=st.value.body), st.value)],
+                                     decorator_list=[], returns=None, type_comment=None)
+                if hasattr(ast, 'TypeAlias') or True:
+                    try:
+                        fd.type_params = []
+                    except Exception:
+                        pass
+                block[i] = st = ast.copy_location(fd, st)
+                ast.fix_missing_locations(st)
             # a, b = x, y  ->  a = x; b = y     (plain names; no right-hand side reads a target)
             if isinstance(st, ast.Assign) and len(st.targets) == 1 and isinstance(st.targets[0], ast.Tuple) and isinstance(st.value, ast.Tuple) \
                     and len(st.targets[0].elts) == len(st.value.elts) and all(isinstance(t_, ast.Name) for t_ in st.targets[0].elts) \
